@@ -696,10 +696,13 @@ def cv6(prog, rr):
     # allocation of the counter lists from the matching counts
     t = norm(f.node)
     for lst, cnt in (("self.hit_l", "self.n_bins"), ("self.hit_ignore_l", "self.n_ignore_bins"), ("self.hit_illegal_l", "self.n_illegal_bins")):
-        if ("%s = [0] * %s" % (lst, cnt)) not in t:
-            rr.finding(f, f.node, "CoverpointModel.finalize", "CV6: %s is not allocated with %s entries" % (lst, cnt), text="alloc " + lst)
-    if "self.unhit_s.update(range(self.n_bins))" not in t:
-        rr.finding(f, f.node, "CoverpointModel.finalize", "CV6: the not-yet-covered set is not initialised with all regular bins", text="unhit init")
+        allocs = [n for n in walk_local(f.node) if isinstance(n, ast.Assign) and any(norm(x) == lst for x in n.targets)]
+        if not allocs or not all(cnt in names_in(a.value) for a in allocs):
+            rr.finding(f, f.node, "CoverpointModel.finalize", "CV6: %s is not allocated from %s (found %s)" % (lst, cnt, [norm(a.value) for a in allocs]), text="alloc " + lst)
+    inits = [n for n in walk_local(f.node) if (isinstance(n, ast.Call) and recv_text(n) == "self.unhit_s" and call_name(n) in ("update", "add")) or
+             (isinstance(n, ast.Assign) and any(norm(x) == "self.unhit_s" for x in n.targets))]
+    if not inits or not any("self.n_bins" in names_in(n) for n in inits):
+        rr.finding(f, f.node, "CoverpointModel.finalize", "CV6: the not-yet-covered set is not initialised from the regular bin count", text="unhit init")
     # sibling walkers
     fam = [("_get_target_bin", "bin_model_l"), ("_get_target_ignore_bin", "ignore_bin_model_l"), ("_get_target_illegal_bin", "illegal_bin_model_l")]
     ref = None
